@@ -8,6 +8,8 @@ TripQuick == {
   <<IntV(-7), Dec(3, 2), IntV(0)>>,
   <<Str(a_), Str(b_), Str(a_)>>,
   <<List(<<1, 2>>), IntV(2), List(<<2, 3>>)>> }
+TripMini == { <<IntV(7), IntV(2), IntV(3)>>, <<Bool(TRUE), Bool(FALSE), Bool(TRUE)>>,
+              <<Str(a_), IntV(2), List(<<2, 3>>)>> }
 TripThorough == TripQuick \cup {
   <<IntV(1), IntV(0), IntV(-4)>>,
   <<Dec(5, 2), IntV(2), Dec(-1, 2)>>,
